@@ -207,7 +207,7 @@ package router
 // flight), with a private copy of the question; nothing on this path blocks or contacts the upstream.
 //@ func (r *router) asyncSingleFlightPrefetch(q *dnsmsg.Question, remoteAddr netip.Addr, u *upstreamWrapper)
 //@   props C19 C20
-//@   requires r != nil && q != nil && r.cache != nil && r.prefetch != nil && r.prefetch.queue != nil && u != nil && r.cache.logger != nil && (r.cache.memory == nil || memOK(r.cache.memory)) && r.logger != nil && r.prefetchTotal != nil && r.ctx != nil
+//@   requires r != nil && q != nil && r.cache != nil && r.prefetch != nil && r.prefetch.queue != nil && u != nil && r.cache.logger != nil && (r.cache.memory == nil || memOK(r.cache.memory)) && (r.cache.ipMarker == nil || markerOK(r.cache.ipMarker)) && r.logger != nil && r.prefetchTotal != nil && r.ctx != nil
 //@   ghost nGo int = 0
 //@   ghost nRes int = 0
 //@   ghost okRes bool = false
@@ -243,7 +243,7 @@ package router
 // aged by the whole seconds since it was stored; an undecodable entry is a miss.
 //@ func (c *cacheCtl) Get(ctx context.Context, q *dnsmsg.Question, rc *RequestContext) (m *dnsmsg.Msg, storedTime time.Time, expireTime time.Time)
 //@   props C07 C08
-//@   requires c != nil && q != nil && rc != nil && c.logger != nil && (c.memory == nil || memOK(c.memory))
+//@   requires c != nil && q != nil && rc != nil && c.logger != nil && (c.memory == nil || memOK(c.memory)) && (c.ipMarker == nil || markerOK(c.ipMarker))
 //@   ghost gmark string = ""
 //@   ghost gkey pool.Buffer = nil
 //@   ghost gm *dnsmsg.Msg = nil
@@ -261,9 +261,22 @@ package router
 //@   callsite cacheKey?: [C07:key-of-this-question-and-group] arg0 == q && arg1 == gmark
 //@   callsite Get?: [C07:lookup-under-that-key] arg0 == c.memory ==> sameSlice(arg1, gkey, 0, len(gkey))
 //@   callsite SubtractTTL?: [C08:aged-copy] arg0 == gm && gm != nil
-//@ func (c *cacheCtl) ipMark(addr netip.Addr) (mark string)
-//@   trusted
+// The client group of an address: the label of the configured range that contains it, "" when no range does, when
+// the address is invalid or when no ranges are configured (ranges are disjoint, so the label is unique).
+//@ spec func markerOK(m *ipMarker) bool = m.l != nil && listOK(m.l) && forall(k, 0, len(m.l.e), 0 <= m.l.e[k].v && m.l.e[k].v < len(m.s))
+//@ func (m *ipMarker) Mark(addr netip.Addr) (mark string)
+//@   props C07 C01
+//@   requires m != nil && markerOK(m)
 //@   modifies nothing
+//@   ensures [C07:invalid-address-has-no-group] addr.z == netip.z0 ==> len(mark) == 0
+//@   ensures [C07:label-of-the-containing-range] addr.z != netip.z0 ==> forall(k, 0, len(m.l.e), inRange(m.l, k, ipv6Of(addr)) ==> mark == m.s[m.l.e[k].v])
+//@   ensures [C07:no-range-no-group] addr.z != netip.z0 && !exists(k, 0, len(m.l.e), inRange(m.l, k, ipv6Of(addr))) ==> len(mark) == 0
+//@ func (c *cacheCtl) ipMark(addr netip.Addr) (mark string)
+//@   props C07
+//@   requires c != nil && (c.ipMarker == nil || markerOK(c.ipMarker))
+//@   modifies nothing
+//@   ensures [C07:no-ranges-no-group] c.ipMarker == nil || addr.z == netip.z0 ==> len(mark) == 0
+//@   ensures [C07:label-of-the-containing-range] c.ipMarker != nil && addr.z != netip.z0 ==> forall(k, 0, len(c.ipMarker.l.e), inRange(c.ipMarker.l, k, ipv6Of(addr)) ==> mark == c.ipMarker.s[c.ipMarker.l.e[k].v])
 
 // Lifetime policy (C08): NXDOMAIN min(30s, minTTL) / 30s without records, SERVFAIL min(1s, .) / 1s,
 // NOERROR minTTL / 30s, other rcodes min(5s, .) / 5s; at least 1s, at most the configured maximum.
@@ -276,7 +289,7 @@ package router
 
 //@ func (c *cacheCtl) Store(q *dnsmsg.Question, clientAddr netip.Addr, resp *dnsmsg.Msg)
 //@   props C08
-//@   requires c != nil && q != nil && (resp == nil || (wfMsg(resp) && smallMsg(resp))) && c.logger != nil
+//@   requires c != nil && q != nil && (resp == nil || (wfMsg(resp) && smallMsg(resp))) && c.logger != nil && (c.ipMarker == nil || markerOK(c.ipMarker))
 //@   modifies nothing
 //@   callsite Store: [C08:never-truncated] resp != nil && !resp.Truncated
 //@   callsite Store: [C08:negative-flag] arg5 == (resp.RCode != 0)
@@ -340,7 +353,7 @@ package router
 
 //@ func (r *router) handleReq(ctx context.Context, q *dnsmsg.Question, rc *RequestContext)
 //@   props C03 C10 C12 C01 C19
-//@   requires r != nil && q != nil && rc != nil && r.cache != nil && r.cache.logger != nil && (r.cache.memory == nil || memOK(r.cache.memory)) && forall(k, 0, len(r.rules), r.rules[k] != nil)
+//@   requires r != nil && q != nil && rc != nil && r.cache != nil && r.cache.logger != nil && (r.cache.memory == nil || memOK(r.cache.memory)) && (r.cache.ipMarker == nil || markerOK(r.cache.ipMarker)) && forall(k, 0, len(r.rules), r.rules[k] != nil)
 //@   requires r.queryCacheHitTotal != nil && r.prefetch != nil && r.prefetch.queue != nil && r.logger != nil && r.prefetchTotal != nil && r.ctx != nil && limOK(r.limiter)
 //@   modifies rc.Response.Msg, rc.Response.RuleIdx, rc.Response.Cached, rc.Response.IpMark, obj(r.prefetch.queue), field(limiter.e), field(time.Time)
 //@   ensures rc.Response.Msg != nil && fresh(rc.Response.Msg) && wfMsg(rc.Response.Msg)
@@ -382,7 +395,7 @@ package router
 
 //@ func (r *router) handleReqMsg(ctx context.Context, m *dnsmsg.Msg, rc *RequestContext)
 //@   props C03 C10 C12 C01
-//@   requires r != nil && m != nil && rc != nil && wfMsg(m) && r.cache != nil && r.cache.logger != nil && (r.cache.memory == nil || memOK(r.cache.memory)) && forall(k, 0, len(r.rules), r.rules[k] != nil)
+//@   requires r != nil && m != nil && rc != nil && wfMsg(m) && r.cache != nil && r.cache.logger != nil && (r.cache.memory == nil || memOK(r.cache.memory)) && (r.cache.ipMarker == nil || markerOK(r.cache.ipMarker)) && forall(k, 0, len(r.rules), r.rules[k] != nil)
 //@   requires r.queryCacheHitTotal != nil && r.logger != nil && r.prefetch != nil && r.prefetch.queue != nil && r.prefetchTotal != nil && r.ctx != nil && limOK(r.limiter)
 //@   modifies rc.Response.Msg, rc.Response.RuleIdx, rc.Response.Cached, rc.Response.IpMark, obj(r.prefetch.queue), field(limiter.e), field(time.Time)
 //@   ensures rc.Response.Msg != nil && wfMsg(rc.Response.Msg)
@@ -445,7 +458,7 @@ package router
 
 //@ func (r *router) handleServerReq(m *dnsmsg.Msg, rc *RequestContext)
 //@   props C03 C01
-//@   requires r != nil && m != nil && rc != nil && wfMsg(m) && r.cache != nil && r.cache.logger != nil && (r.cache.memory == nil || memOK(r.cache.memory)) && forall(k, 0, len(r.rules), r.rules[k] != nil)
+//@   requires r != nil && m != nil && rc != nil && wfMsg(m) && r.cache != nil && r.cache.logger != nil && (r.cache.memory == nil || memOK(r.cache.memory)) && (r.cache.ipMarker == nil || markerOK(r.cache.ipMarker)) && forall(k, 0, len(r.rules), r.rules[k] != nil)
 //@   requires r.queryCacheHitTotal != nil && r.logger != nil && r.queryTotal != nil && r.prefetch != nil && r.prefetch.queue != nil && r.prefetchTotal != nil && r.ctx != nil && limOK(r.limiter)
 //@   modifies *
 //@   ensures [C03:always-a-response] rc.Response.Msg != nil && wfMsg(rc.Response.Msg)
@@ -455,7 +468,7 @@ package router
 
 // ---- listeners: one response write per handled request ------------------------------------------------
 
-//@ spec func routerReady(r *router) bool = r != nil && r.cache != nil && r.cache.logger != nil && (r.cache.memory == nil || memOK(r.cache.memory)) && forall(k, 0, len(r.rules), r.rules[k] != nil) && r.queryCacheHitTotal != nil && r.logger != nil && r.queryTotal != nil && r.prefetch != nil && r.prefetch.queue != nil && r.prefetchTotal != nil && r.ctx != nil && limOK(r.limiter)
+//@ spec func routerReady(r *router) bool = r != nil && r.cache != nil && r.cache.logger != nil && (r.cache.memory == nil || memOK(r.cache.memory)) && (r.cache.ipMarker == nil || markerOK(r.cache.ipMarker)) && forall(k, 0, len(r.rules), r.rules[k] != nil) && r.queryCacheHitTotal != nil && r.logger != nil && r.queryTotal != nil && r.prefetch != nil && r.prefetch.queue != nil && r.prefetchTotal != nil && r.ctx != nil && limOK(r.limiter)
 // the payload size the client advertised: class of the last OPT record of the query, at least 512
 //@ spec func lastOPTAt(m *dnsmsg.Msg, k int) bool = 0 <= k && k < len(m.Additionals) && isOPT(m.Additionals[k]) && forall(j, k+1, len(m.Additionals), !isOPT(m.Additionals[j]))
 
@@ -501,7 +514,7 @@ package router
 // the refresh goroutine: releases its private question and the reservation exactly once, on every path
 //@ closure router.asyncSingleFlightPrefetch$1
 //@   props C19 C20
-//@   requires r != nil && r.prefetch != nil && r.prefetch.queue != nil && qCopy != nil && u != nil && r.cache != nil && r.cache.logger != nil && (r.cache.memory == nil || memOK(r.cache.memory)) && r.logger != nil && r.prefetchTotal != nil && r.ctx != nil
+//@   requires r != nil && r.prefetch != nil && r.prefetch.queue != nil && qCopy != nil && u != nil && r.cache != nil && r.cache.logger != nil && (r.cache.memory == nil || memOK(r.cache.memory)) && (r.cache.ipMarker == nil || markerOK(r.cache.ipMarker)) && r.logger != nil && r.prefetchTotal != nil && r.ctx != nil
 //@   ghost nDone int = 0
 //@   ghost nRel int = 0
 //@   oncall done: nDone = nDone + 1
@@ -514,7 +527,7 @@ package router
 
 //@ func (r *router) doPrefetch(q *dnsmsg.Question, remoteAddr netip.Addr, u *upstreamWrapper)
 //@   props C19 C08
-//@   requires r != nil && q != nil && u != nil && r.cache != nil && r.cache.logger != nil && (r.cache.memory == nil || memOK(r.cache.memory)) && r.logger != nil && r.prefetchTotal != nil && r.ctx != nil
+//@   requires r != nil && q != nil && u != nil && r.cache != nil && r.cache.logger != nil && (r.cache.memory == nil || memOK(r.cache.memory)) && (r.cache.ipMarker == nil || markerOK(r.cache.ipMarker)) && r.logger != nil && r.prefetchTotal != nil && r.ctx != nil
 //@   ghost nStore int = 0
 //@   ghost fwdErr error = nil
 //@   aftercall forward: fwdErr = ret1
@@ -625,7 +638,7 @@ package router
 //@ func (r *router) initCache(cfg *CacheConfig) (c *cacheCtl, err error)
 //@   trusted
 //@   modifies nothing
-//@   ensures err == nil ==> c != nil && c.logger != nil && (c.memory == nil || memOK(c.memory))
+//@   ensures err == nil ==> c != nil && c.logger != nil && (c.memory == nil || memOK(c.memory)) && (c.ipMarker == nil || markerOK(c.ipMarker))
 // startServer: one listener per configured protocol; "tls" and "https" start the TLS variants; an unknown
 // protocol is an error; a closer is returned exactly when a listener was started.
 //@ func (r *router) startServer(cfg *ServerConfig) (closer func(), err error)
